@@ -75,6 +75,7 @@ func GenTokenMix(r *rand.Rand, id string) (*Case, map[string]codeTerm) {
 		}
 	}
 	nn := 1 + r.Intn(6)
+	var late []Tok
 	for i := 0; i < nn; i++ {
 		name := fmt.Sprintf("TK%d", i)
 		t := codeTerm{Name: name, Kind: "auto", Named: true}
@@ -90,6 +91,30 @@ func GenTokenMix(r *rand.Rand, id string) (*Case, map[string]codeTerm) {
 				}
 			}
 		}
+		if t.Kind == "auto" && r.Intn(4) == 0 {
+			// introduced without a number first (bare %token or a precedence line), numbered by a later %token line,
+			// with a number just above everything else so that automatic numbering could run into it
+			base := 2
+			for n := range usedNums {
+				if n > base && n < 1200 {
+					base = n
+				}
+			}
+			num := base + 1 + r.Intn(nn+2)
+			if !usedNums[num] {
+				usedNums[num] = true
+				t.Kind, t.Num = "explicit", num
+				if r.Intn(2) == 0 {
+					c.Tokens = append(c.Tokens, Tok{Name: name})
+				} else {
+					c.Prec = append(c.Prec, PrecLine{Assoc: "left", Syms: []string{name}})
+				}
+				late = append(late, Tok{Name: name, Num: num})
+				info[name] = t
+				all = append(all, name)
+				continue
+			}
+		}
 		if r.Intn(4) == 0 && t.Kind == "auto" {
 			// declared only on a precedence line
 			c.Prec = append(c.Prec, PrecLine{Assoc: []string{"left", "right", "nonassoc"}[r.Intn(3)], Syms: []string{name}})
@@ -102,6 +127,7 @@ func GenTokenMix(r *rand.Rand, id string) (*Case, map[string]codeTerm) {
 		info[name] = t
 		all = append(all, name)
 	}
+	c.Tokens = append(c.Tokens, late...) // the numbering %token lines come last
 	// rules: S -> each terminal once in a few alternatives
 	r.Shuffle(len(all), func(i, j int) { all[i], all[j] = all[j], all[i] })
 	for i := 0; i < len(all); i += 2 {
